@@ -282,4 +282,4 @@ QUERIES = [
           bounds=lambda tier: {"objects": "def with 0-2 decorators / lambda, defined in a generated module file and passed as objects"},
           outside=["functions without retrievable source"]),
 ]
-BUDGET = {"quick": 420, "thorough": 3000}
+BUDGET = {"quick": 420, "thorough": 1200}
